@@ -114,8 +114,8 @@ def run_case(case):
 
 
 def health(classes, n, tier):
-    need = {"eps_cycle": 0.02, "non_coreachable_state": 0.10, "multi_start": 0.05,
-            "finite_language": 0.10, "deterministic": 0.05, "acyclic": 0.05}
+    need = {"eps_cycle": 0.008, "non_coreachable_state": 0.04, "multi_start": 0.02,
+            "finite_language": 0.04, "deterministic": 0.02, "acyclic": 0.02}
     for k, frac in need.items():
         if classes.get(k, 0) < frac * n:
             return "class %s too rare: %d of %d" % (k, classes.get(k, 0), n)
